@@ -329,7 +329,46 @@ def _shared_formula_kinds(ctx: Ctx):
         ctx.count("shared-formula", "histories")
 
 
+def _shared_contrast_objects(ctx: Ctx):
+    """one contrasts object (from the caller's context) used by several builds over columns with different level sets: every build equals the
+    build with a fresh object of the same configuration"""
+    import numpy as np
+    import pandas as pd
+    from formulaic import model_matrix
+    from formulaic.transforms.contrasts import TreatmentContrasts, SumContrasts, HelmertContrasts, DiffContrasts, PolyContrasts, SASContrasts
+    rng = ctx.fork("shared-contrasts")
+    makers = [lambda: TreatmentContrasts(base="b"), lambda: TreatmentContrasts(), lambda: SumContrasts(), lambda: HelmertContrasts(scale=True),
+              lambda: DiffContrasts(backward=False), lambda: PolyContrasts(), lambda: SASContrasts()]
+    level_sets = [["a", "b", "c"], ["b", "c", "d"], ["b", "a"], ["c", "b", "a", "d"], ["b", "x", "y", "z", "w"]]
+    fixed = [[["a", "b", "c"], ["b", "c", "d"], ["c", "b", "a"], ["a", "b", "c"]], [["b", "a"], ["a", "b"], ["b", "c"]],
+             [["c", "b", "a", "d"], ["a", "b", "c", "d"], ["b", "x", "y", "z"]]]      # equal sizes, the same level at other positions
+    plans = [(mk, seq) for mk in makers for seq in fixed] + [(rng.choice(makers), None) for _ in range(ctx.n(20, 300))]
+    for mk, seq in plans:
+        shared = mk()
+        hist = []
+        for step in range(len(seq) if seq else rng.randint(2, 4)):
+            lv = seq[step] if seq else rng.choice(level_sets)
+            hist.append(lv)
+            n = 2 * len(lv)
+            df = pd.DataFrame({"A": pd.Series([lv[k % len(lv)] for k in range(n)], dtype=object), "x": [float(k) for k in range(n)]})
+            f = rng.choice(["C(A, K)", "C(A, K) + x", "0 + C(A, K):x"])
+            ctx.oracle_runs += 1
+            rp = {"kind": "shared-contrasts", "contrasts": type(shared).__name__, "levels_in_turn": hist[:], "formula": f}
+            try:
+                got = model_matrix(f, df, context={"K": shared})
+                want = model_matrix(f, df, context={"K": mk()})
+            except Exception as e:
+                ctx.fail(f"{type(shared).__name__} object shared by builds over the level sets {hist}: {type(e).__name__}: {str(e)[:150]}", rp)
+                break
+            if list(got.columns) != list(want.columns) or not np.allclose(np.asarray(got, dtype=float), np.asarray(want, dtype=float), atol=1e-12):
+                ctx.fail(f"{type(shared).__name__} object shared by builds over the level sets {hist}: the last build has columns {list(got.columns)}, "
+                         f"a fresh object gives {list(want.columns)} (or other values)", rp)
+                break
+        ctx.count("shared-contrasts", type(shared).__name__)
+
+
 def run(ctx: Ctx):
+    _shared_contrast_objects(ctx)
     _rebinding(ctx)
     _dot_order(ctx)
     _shared_formula_kinds(ctx)
